@@ -13,6 +13,8 @@ A term is JSON: strings are names.
         | ["def", n, [deco], params, ret|None, body] | ["class", n, [bases], [deco], [kws], body]
         | ["for", target, e, body, orelse] | ["while", e, body, orelse] | ["if", e, body, orelse]
         | ["with", [[e, target|None]], body] | ["try", body, [[ty|None, n|None, body]], orelse, final] | ["pass"]
+        | ["doc", [example stmt], [brace names]]   a docstring statement with doctest examples (expr / assign statements)
+ params may carry "async": True (rendered `async def`; the analysis treats it as a def)
 """
 
 RESERVED = ["*", "__all__", "__class__", "__future__"]      # ids 0..3 (PySyntax.v)
@@ -545,7 +547,7 @@ class Render:
             dg = self.decos(ds, ind)
             pp, pg = self.params(P)
             rp = self.expr(ret) if ret is not None else None
-            ln = self.emit(ind, "def %s(%s)%s:" % (nm, pp, (" -> " + rp[0]) if rp else ""))
+            ln = self.emit(ind, "%sdef %s(%s)%s:" % ("async " if P.get("async") else "", nm, pp, (" -> " + rp[0]) if rp else ""))
             bg = self.suite(body, ind + 1)
             return "(SDef %d %s %s %s %s %s)" % (ln, self.N(nm), dg, pg, self.O(rp[1] if rp else None), bg)
         if t == "class":
@@ -611,6 +613,21 @@ class Render:
             return "(STry %d %s %s %s %s)" % (ln, bg, self.L(hg), og, fg)
         if t == "pass":
             return "(SPass %d)" % self.emit(ind, "pass")
+        if t == "doc":
+            _, examples, braces = s
+            ln = self.emit(ind, '"""doc ' + " ".join("{%s}" % b for b in braces))
+            exs = []
+            for x in examples:
+                if x[0] == "expr":
+                    p, g = self.expr(x[1])
+                    exs.append("(SExpr %d %s)" % (self.emit(ind, ">>> " + p), g))
+                else:
+                    ts = [self.target(y) for y in x[1]]
+                    p, g = self.expr(x[2])
+                    l2 = self.emit(ind, ">>> " + " = ".join([tp for tp, _ in ts] + [p]))
+                    exs.append("(SAssign %d %s %s)" % (l2, self.L([c for _, c in ts]), g))
+            self.emit(ind, '"""')
+            return "(SDoc %d %s %s)" % (ln, self.L(exs), self.Ns(braces))
         raise ValueError(t)
 
 
